@@ -916,6 +916,37 @@ type loopSpec struct {
 	extra  map[string]*Val // extra names visible in invariants
 }
 
+// mutexLoopPre: under `assert locks`, the mutex arrays a loop body operates on, as they are when the loop is
+// entered. Each iteration must leave them as it found them (a critical section does not span iterations);
+// that is assumed at the loop head and is an obligation at every back edge.
+func (ex *Exec) mutexLoopPre(st *State, rec *recorder) map[string]string {
+	pre := map[string]string{}
+	if !ex.lockCheck || rec == nil {
+		return pre
+	}
+	for k := range ex.eng.mutexKeys {
+		if rec.heap[k] && ex.eng.heapSortOf(k) != "" {
+			pre[k] = ex.heapArr(st, k, "Int")
+		}
+	}
+	return pre
+}
+
+func (ex *Exec) assumeMutexPre(st *State, pre map[string]string) {
+	for k, t := range pre {
+		st.assume(eq(ex.heapArr(st, k, "Int"), t))
+	}
+}
+
+func (ex *Exec) checkMutexBalanced(c *State, ord int, pos token.Pos) {
+	if ex.discovery > 0 || len(ex.loopMutexPre) == 0 {
+		return
+	}
+	for k, t := range ex.loopMutexPre[len(ex.loopMutexPre)-1] {
+		ex.obligNamed(c, "lock", fmt.Sprintf("loop%d/lock-balanced:%s", ord, k), pos, eq(ex.heapArr(c, k, "Int"), t), "each iteration leaves the mutex as it found it")
+	}
+}
+
 // checkExits: `loop N exits e` -- e holds whenever the loop is left (exhausted or by break).
 func (ex *Exec) checkExits(st *State, ls *loopSpec, extra map[string]*Val) {
 	if ex.contract == nil || ex.discovery > 0 {
@@ -1010,6 +1041,7 @@ func (ex *Exec) execFor(st *State, s *ast.ForStmt, label string) flow {
 			}
 			if ex.discovery == 0 {
 				ex.checkInvs(c, ls, "inv-keep", nil)
+				ex.checkMutexBalanced(c, ord, s.Pos())
 				if ls.decr != nil {
 					d1 := ex.evalClauseVal(c, ls.decr, ex.entry, ls.scopeP, nil).S
 					ex.obligCl(c, "decreases", fmt.Sprintf("loop%d/decreases", ord), s.Pos(), and("(<= 0 "+dec0+")", "(< "+d1+" "+dec0+")"), ls.decr)
@@ -1026,7 +1058,11 @@ func (ex *Exec) execFor(st *State, s *ast.ForStmt, label string) flow {
 		ex.checkInvs(st, ls, "inv-init", nil)
 	}
 	head := st
+	mpre := ex.mutexLoopPre(head, rec)
 	ex.havocRecorded(head, rec)
+	ex.assumeMutexPre(head, mpre)
+	ex.loopMutexPre = append(ex.loopMutexPre, mpre)
+	defer func() { ex.loopMutexPre = ex.loopMutexPre[:len(ex.loopMutexPre)-1] }()
 	ex.assumeInvs(head, ls, nil)
 	ex.inLoop++
 	exits, out := iter(head)
@@ -1199,6 +1235,7 @@ func (ex *Exec) execRange(st *State, s *ast.RangeStmt, label string) flow {
 			}
 			if ex.discovery == 0 {
 				ex.checkInvs(c, ls, "inv-keep", extraAt(c))
+				ex.checkMutexBalanced(c, ord, s.Pos())
 			}
 		}
 		return
@@ -1218,7 +1255,11 @@ func (ex *Exec) execRange(st *State, s *ast.RangeStmt, label string) flow {
 		ex.checkInvs(st, ls, "inv-init", extraAt(st))
 	}
 	head := st
+	mpre := ex.mutexLoopPre(head, rec)
 	ex.havocRecorded(head, rec)
+	ex.assumeMutexPre(head, mpre)
+	ex.loopMutexPre = append(ex.loopMutexPre, mpre)
+	defer func() { ex.loopMutexPre = ex.loopMutexPre[:len(ex.loopMutexPre)-1] }()
 	switch kind {
 	case "slice", "array", "int", "string":
 		i := ex.eng.smt.fresh("idx", "Int")
